@@ -43,6 +43,13 @@ func (ex *Exec) evalCall(e *ast.CallExpr, st *State) Value {
 			}
 		case "old":
 			if _, isFn := ex.objOf(id).(*types.Func); isFn && ex.isPrelude(ex.objOf(id)) {
+				if id0, isId := ast.Unparen(e.Args[0]).(*ast.Ident); isId {
+					if o := ex.objOf(id0); o != nil {
+						if v, have := ex.entryVals[o]; have {
+							return v // old(parameter) is its value at function entry
+						}
+					}
+				}
 				if ex.oldState == nil {
 					unsupported("old() outside postcondition at %s", ex.pos(e.Pos()))
 				}
@@ -71,6 +78,8 @@ func (ex *Exec) evalCall(e *ast.CallExpr, st *State) Value {
 	if id, ok := fun.(*ast.Ident); ok {
 		if fo, isFn := ex.objOf(id).(*types.Func); isFn && ex.isPrelude(fo) {
 			switch id.Name {
+			case "sameFunc":
+				return ex.eqValue(ex.eval(e.Args[0], st), ex.eval(e.Args[1], st))
 			case "sameEntries":
 				a, ok1 := ex.eval(e.Args[0], st).(*MapV)
 				b, ok2 := ex.eval(e.Args[1], st).(*MapV)
@@ -337,6 +346,12 @@ func (ex *Exec) callFunc(f *FuncV, args []Value, st *State, site *ast.CallExpr) 
 	if f.AbstractID != nil {
 		return ex.callAbstractFunc(f, args, st, site)
 	}
+	if f.Obj != nil && f.Recv != nil {
+		switch f.Recv.(type) {
+		case *AbstractIfaceV, *IfaceV:
+			return ex.callInterface(f, f.Recv, args, st, site)
+		}
+	}
 	if f.Named != "" {
 		return ex.callExternal(f, args, st, site)
 	}
@@ -344,6 +359,12 @@ func (ex *Exec) callFunc(f *FuncV, args []Value, st *State, site *ast.CallExpr) 
 		return ex.inline(nil, f.Lit, f.Pkg, f.Env, nil, args, st, site)
 	}
 	fi := ex.prog.Funcs[f.Obj]
+	if fi == nil && f.Recv != nil {
+		switch f.Recv.(type) {
+		case *AbstractIfaceV, *IfaceV:
+			return ex.callInterface(f, f.Recv, args, st, site)
+		}
+	}
 	if fi == nil || fi.Decl.Body == nil {
 		return ex.callExternal(&FuncV{Named: f.Obj.FullName(), Obj: f.Obj, Recv: f.Recv}, args, st, site)
 	}
@@ -434,6 +455,7 @@ func (ex *Exec) inline(fi *FuncInfo, lit *ast.FuncLit, pkg *packages.Package, en
 		}
 	}
 	i := 0
+	recordEntry := fi != nil && ex.recursing != nil && ex.recursing.fi == fi && len(ex.frames) == 2
 	for _, fld := range ftype.Params.List {
 		if len(fld.Names) == 0 {
 			i++
@@ -441,7 +463,11 @@ func (ex *Exec) inline(fi *FuncInfo, lit *ast.FuncLit, pkg *packages.Package, en
 		}
 		for _, n := range fld.Names {
 			if n.Name != "_" {
-				ex.declare(st, ex.defObj(fr.pkg, n), args[i])
+				obj := ex.defObj(fr.pkg, n)
+				ex.declare(st, obj, args[i])
+				if recordEntry {
+					ex.entryVals[obj] = args[i]
+				}
 			}
 			i++
 		}
@@ -594,18 +620,24 @@ func (ex *Exec) evalUnfold(e *ast.CallExpr, st *State) Value {
 	nm := fi.Decl.Name.Name
 	was := ex.revealed[nm]
 	ex.revealed[nm] = false
-	atom := ex.callOpaqueSpec(fi, nil, args, st).(*Term)
+	atom := ex.callOpaqueSpec(fi, nil, args, st)
 	s2 := st.fork(st.pc)
 	ex.suppress++
 	body := ex.inline(fi, nil, fi.Pkg, nil, nil, args, s2, inner)
 	ex.suppress--
 	ex.revealed[nm] = was
-	bt, ok := body.(*Term)
-	if !ok {
-		unsupported("unfold: non-scalar result")
+	// definitional equality: leaf by leaf, bit for bit
+	var la, lb []*Term
+	ex.flattenAny(atom, st, &la)
+	ex.flattenAny(body, s2, &lb)
+	if len(la) != len(lb) || len(la) == 0 {
+		unsupported("unfold: result shapes differ")
 	}
-	ex.assume(st, ex.ts.Eq(atom, bt))
-	ex.assumptions["definitional unfolding of recursive spec function "+nm+" (its recursion is structural on an unsigned counter)"] = true
+	for i := range la {
+		// a definition holds everywhere, not only on this path
+		ex.facts = append(ex.facts, ex.ts.Eq(la[i], lb[i]))
+	}
+	ex.assumptions["definitional unfolding of recursive spec function "+nm+" (termination of its recursion is assumed)"] = true
 	return atom
 }
 
